@@ -435,6 +435,10 @@ def interpret(locations, return_column, order, ptr):
             if name == ".cfi_startproc":
                 if st is not None:
                     raise CfiError("nested startproc")
+                if return_column is None:
+                    # a target without a DWARF return column (PE): procedures
+                    # cannot be evaluated, everything in front still can
+                    raise CfiUnsupported("no return column")
                 st = RefState(return_column)
                 started = True
                 continue
